@@ -56,7 +56,7 @@ FAULT_PROBES = {"runner_killed": "runner_killed", "output_file_torn": "output_to
                 "runners_overlapped": "runners_overlapped"}
 PROBES = ["cache_hit_valid", "cache_other_tag", "cache_failed_rc", "cache_success_flag_but_missing_file", "cache_unreadable", "destination_only_key",
           "item_already_in_destination", "vectorised_partly_cached", "runner_killed", "output_torn", "interrupt_prepare", "interrupt_submit",
-          "interrupt_wait", "interrupt_finalise", "tag_changed_between_calls", "fail_after_writing_return_file", "closing_call_completed", "idempotent_call_checked", "runners_overlapped"]
+          "interrupt_wait", "interrupt_finalise", "tag_changed_between_calls", "fail_after_writing_return_file", "closing_call_completed", "idempotent_call_checked", "runners_overlapped", "driver_with_envars"]
 
 OUTCOMES = ["ok", "ok", "ok", "ok", "rc1", "rc2", "sig", "nofile", "fail_with_file", "sig_with_file"]
 
@@ -108,11 +108,14 @@ def gen_plan(r, tier, index):
         if ci and r.random() < 0.2:
             call["cache_ops"].append({"op": r.choice(["delete", "corrupt"]), "key": r.choice(all_eks)})
         calls.append(call)
-    return {"check": CHECK, "vectorised": vec, "items": items, "dest_pre": dest_pre, "calls": calls, "n_workers": r.choice([1, 2, 4, None])}
+    return {"check": CHECK, "vectorised": vec, "items": items, "dest_pre": dest_pre, "calls": calls, "n_workers": r.choice([1, 2, 4, None]),
+            "driver_envars": r.choice([None, None, {"OMP_NUM_THREADS": "2"}, {"FAKE_LICENSE": "/opt/lic", "OMP_NUM_THREADS": "1"}]),
+            "envars_in_input": r.random() < 0.5}
 
 
 # ---------------------------------------------------------------------------- the test driver
 _DRV = None
+_ENVARS_IN_INPUT = [True]   # whether the driver's prep() copies the job's envars into the JobInput (xtb-style preps do not)
 
 
 def _driver():
@@ -127,7 +130,8 @@ def _driver():
             def calc(self, M, tag="t0"):
                 conf = f"c{M._conf_id}" if hasattr(M, "_conf_id") else "-"
                 return JobInput(M.name, commands=[(f"{self.executable} {M.name} {tag} {conf}", "fake")],
-                                files={"in.xyz": M.dumps_xyz().encode()}, return_files=self.return_files)
+                                files={"in.xyz": M.dumps_xyz().encode()}, return_files=self.return_files,
+                                envars=dict(self.envars) if (self.envars and _ENVARS_IN_INPUT[0]) else None)
 
             @calc.post
             def calc(self, out, M, tag="t0"):
@@ -214,7 +218,11 @@ def run_plan(plan, trace=False):
             if any(k not in {it["name"] for it in plan["items"]} for k in plan["dest_pre"]):
                 res.stats["probe:destination_only_key"] += 1
         src_ro = Lib(src_path)
-        drv = _driver()(executable="fakeprog", check_exe=False, find=False)
+        # (a driver instance with its own environment settings: they are part of every JobInput it builds)
+        drv = _driver()(executable="fakeprog", envars=plan.get("driver_envars"), check_exe=False, find=False)
+        _ENVARS_IN_INPUT[0] = bool(plan.get("envars_in_input", True))
+        if plan.get("driver_envars"):
+            res.stats["probe:driver_with_envars"] += 1
         job = drv.calc_ens if vec else drv.calc
         cache = {}   # ek -> None | "unreadable" | {"tag","success","content","rc"}
         attempt_no = [0]
@@ -280,9 +288,13 @@ def run_plan(plan, trace=False):
                         res.stats["probe:vectorised_partly_cached"] += 1
             # ---- run the real jobmap
             executed = []
+            env_bad = []
 
             def behaviour(argv, rec, fe, _call=call, _tag=tag):
                 nm, tg, conf = argv[1], argv[2], argv[3]
+                for ek_, ev_ in ((plan.get("driver_envars") or {}) if plan.get("envars_in_input", True) else {}).items():
+                    if (rec["env"] or {}).get(ek_) != ev_:
+                        env_bad.append((nm, ek_, (rec["env"] or {}).get(ek_)))
                 e = nm if conf == "-" else f"{nm}.{conf[1:]}"
                 # per-key attempt numbers: independent of the order in which jobmap walks its key SET
                 attempts[e] = attempts.get(e, 0) + 1
@@ -344,6 +356,9 @@ def run_plan(plan, trace=False):
             ex_keys = [e for (e, _t, _n) in executed]
             tr.append(f"call #{ci} tag={tag} todo={todo} cache-states={state} expect_exec={sorted(expect_exec)} executed={sorted(ex_keys)} "
                       f"outcomes={call['outcomes']} faults={call['faults']} interrupt={call['interrupt']}{' (fired)' if interrupted else ''}")
+            if env_bad:
+                viol("command-ran-without-the-drivers-environment", "envars", f"call #{ci}: {env_bad[:3]} (driver envars {plan.get('driver_envars')})")
+                break
             # ---- executions: exactly once each, exactly the expected ones
             dup = sorted({e for e in ex_keys if ex_keys.count(e) > 1})
             if dup:
